@@ -109,7 +109,10 @@ def gen_case(rng, index, tier):
             arg = {'spelling': 'no-such-%d' % a, 'class': 'missing'}
             cls = 'missing'
         arg['acls'] = cls if not arg.get('dup') else 'duplicate'
-        if arg['spelling'].startswith('-'):
+        if arg['spelling'].startswith('-') and not arg.get('dup') and \
+                rng.random() < 0.4:
+            # (after the '--' that precedes the file names a name may as well
+            # be given as it is: '-v', '-rf', '--' are file names there)
             arg['spelling'] = './' + arg['spelling']
         args.append(arg)
     rng.shuffle(args)
